@@ -56,12 +56,13 @@ for sd in sorted(glob.glob("/tmp/seed/*C??_?")):
     except Exception:
         continue
     retired = os.path.exists(os.path.join(sd, "RETIRED.txt"))
-    if not v.get("confirmed") and not retired:
+    stale = os.path.exists(os.path.join(sd, "DEMO_STALE.txt"))
+    if not v.get("confirmed") and not retired and not stale:
         continue
     prop = re.search(r"C\d\d", sid).group(0)
     dst = os.path.join(out_root, sid)
     os.makedirs(dst, exist_ok=True)
-    for f in ("patch.diff", "demo.py", "notes.md", "patch.orig.diff", "RETIRED.txt"):
+    for f in ("patch.diff", "demo.py", "notes.md", "patch.orig.diff", "RETIRED.txt", "DEMO_STALE.txt"):
         if os.path.exists(os.path.join(sd, f)):
             shutil.copy(os.path.join(sd, f), os.path.join(dst, f))
     notes = open(os.path.join(sd, "notes.md"), errors="replace").read() if os.path.exists(os.path.join(sd, "notes.md")) else ""
@@ -69,7 +70,9 @@ for sd in sorted(glob.glob("/tmp/seed/*C??_?")):
     m = re.search(r"(?is)(what (?:it|exactly it) needs[^\n]*\n.*?)(\n#|\n\*\*[A-Z]|\Z)", notes)
     needs = re.sub(r"\s+", " ", m.group(1) if m else notes)[:900]
     rnd = "2 (held out: written after the checks had been strengthened on round 1)" if sid.startswith("r2") else \
-        "3 (written for the tree that contains the rollback fix)" if sid.startswith("r3") else "1"
+        "3 (written for the tree that contains the rollback fix)" if sid.startswith("r3") else \
+        "4 (held out: one change per property, after the systematic widening)" if sid.startswith("r4") else \
+        "5 (held out: one change per property, authors asked for trigger kinds not used before)" if sid.startswith("r5") else "1"
     fr, fn = first.get(sid, {}), final.get(sid, {})
     meta = dict(seed=sid, property=prop, round=rnd, summary=title,
                 written_by="independent sub-agent given only the property text and a scratch worktree",
@@ -81,7 +84,8 @@ for sd in sorted(glob.glob("/tmp/seed/*C??_?")):
                 first_run={k: dict(exit=r["exit"], verdict=verdict(r["exit"])) for k, r in fr.items()},
                 checks_run={k: dict(exit=r["exit"], verdict=verdict(r["exit"]), summary=r["summary"]) for k, r in fn.items()},
                 detected_by=[k for k, r in fn.items() if r["exit"] == 1],
-                retired=open(os.path.join(sd, "RETIRED.txt")).read().strip() if retired else None)
+                retired=open(os.path.join(sd, "RETIRED.txt")).read().strip() if retired else None,
+                note=open(os.path.join(sd, "DEMO_STALE.txt")).read().strip() if stale else None)
     json.dump(meta, open(os.path.join(dst, "meta.json"), "w"), indent=1)
     rows.append((sid, {k: r["exit"] for k, r in fr.items()}, {k: r["exit"] for k, r in fn.items()}))
 for r in rows:
